@@ -2,16 +2,11 @@
   SF.Ops — dispatch of operation lines to the executable models and oracles.
   `model = none` means the driver has no model for the op (never silently `ok`).
 -/
-import SF.Proto
+import SF.Ops.Common
+import SF.Ops.Cbor
 import SF.Gotype.Symbols
 namespace SF.Ops
 open SF
-
-structure Result where
-  model : Option String        -- the model's observation, same canonical form as the harness
-  fails : List String := []    -- oracle failures: "<property> <signature> <detail>"
-
-def hxe (b : Bytes) : String := if b.isEmpty then "_" else toHex b
 
 /-- lru <cap> <keys> -/
 def opLRU (args : List String) (impl : String) : Result :=
@@ -51,9 +46,39 @@ def opLRU (args : List String) (impl : String) : Result :=
     | _, _ => { model := none }
   | _ => { model := none }
 
+def opEnc (args : List String) (impl : String) : Result :=
+  match args with
+  | [fmt, _opts, ff, xs] =>
+    match decToInt? ff, parseXEvs xs with
+    | some failFrom, some xevs =>
+      if fmt == "cbor" then { model := some (Cbor.encModel failFrom xevs) } else noModel
+    | _, _ => noModel
+  | _ => noModel
+
+def opParse (args : List String) (impl : String) : Result :=
+  match args with
+  | [fmt, entry, fa, cs] =>
+    match decToInt? fa, parseChunks cs with
+    | some failAt, some chunks =>
+      if fmt == "cbor" then { model := some (Cbor.parseModel entry failAt chunks) } else noModel
+    | _, _ => noModel
+  | _ => noModel
+
+def opDec (args : List String) (impl : String) : Result :=
+  match args with
+  | [fmt, bs, _le, mn, cs] =>
+    match decToNat? bs, decToNat? mn, parseChunks cs with
+    | some bufsize, some maxNext, some chunks =>
+      if fmt == "cbor" then { model := some (Cbor.decModel bufsize maxNext chunks) } else noModel
+    | _, _, _ => noModel
+  | _ => noModel
+
 def runLine (op : String) (impl : String) : Result :=
   match op.splitOn " " with
   | "lru" :: args => opLRU args impl
+  | "enc" :: args => opEnc args impl
+  | "parse" :: args => opParse args impl
+  | "dec" :: args => opDec args impl
   | _ => { model := none }
 
 end SF.Ops
